@@ -52,5 +52,6 @@ def load_mir(default_features=False, repo=REPO, force=False):
     enums, structs = rsdefs.parse_defs(repo, feats)
     for k, v in rsdefs.EXTERNAL_ENUMS.items(): enums.setdefault(k, v)
     mir = Mir(open(path).read(), repo, enums, structs)
+    mir.qualified = dict(rsdefs.parse_defs.qualified)
     mir.dump_path, mir.dump_secs, mir.dump_cached, mir.features = path, secs, cached, feats
     return mir
